@@ -220,6 +220,15 @@ class Case:
                      center=c, position=2)
             self.cmp('C15c:unit-product-neutral:k2', a13, self.M(2, [Pu, r3], center=c), 1e-9 * s2 + 1e-300,
                      rewards=nm, center=c)
+        # the fluent spellings `a.prod(b)` / `a.sum(b)` are the ProductReward / SumReward of the same rewards
+        pairs = [(r1, r2)] + ([(TBL, ('locus', 0)), (TH, ('locus', 1)), (TBL, ('locus', 1))] if self.cfg.get('loci', 1) == 2 else [])
+        for a, b in pairs:
+            ra, rb = U.make_reward(self.pg, a), U.make_reward(self.pg, b)
+            for name, fluent, spec_ in (('prod', ra.prod(rb), ('P', [a, b])), ('sum', ra.sum(rb), ('S', [a, b]))):
+                want = self.M(1, [spec_])
+                got = float(self.coal.moment(1, (fluent,)))
+                self.cmp(f'C15c:fluent-{name}', want, got, 1e-9 * abs(want) + 1e-300, rewards=[U.rname(a), U.rname(b)],
+                         route=f'a.{name}(b) against {"ProductReward" if name == "prod" else "SumReward"}([a, b])')
         # both arguments sums: (r1 + r2, r1 + r2)
         x11, x22, x12 = (self.M(2, [r1, r1], center=False), self.M(2, [r2, r2], center=False),
                          self.M(2, [r1, r2], center=False))
